@@ -221,7 +221,7 @@ func (w *World) canon(v ssa.Value, d int) string {
 // unchanged and complete, the results of one call made in fn (`if exec { return
 // L.GetFinality(k) }; return L.Get(k)`), and fn does nothing else. Returns those calls.
 func (w *World) forwardedCalls(fn *ssa.Function) []*ssa.Call {
-	if fn == nil || fn.Blocks == nil || !w.InModule(fn) || token.IsExported(fn.Name()) || len(fn.Blocks) < 2 || len(fn.Blocks) > 12 {
+	if fn == nil || fn.Blocks == nil || !w.InModule(fn) || (fn.Parent() == nil && token.IsExported(fn.Name())) || len(fn.Blocks) < 2 || len(fn.Blocks) > 12 {
 		return nil
 	}
 	if w.fwdMemo == nil {
@@ -275,7 +275,11 @@ func (w *World) forwardedCalls(fn *ssa.Function) []*ssa.Call {
 			switch x := in.(type) {
 			case *ssa.Call:
 				if !fwd[x] {
-					return nil
+					// computing an argument (a key from an address …) is fine as long as it has no effect
+					cal := x.Common().StaticCallee()
+					if cal == nil || !(pureLibrary(cal) || (w.InModule(cal) && w.pureFn(cal, 0))) {
+						return nil
+					}
 				}
 			case *ssa.Store, *ssa.MapUpdate, *ssa.Go, *ssa.Defer, *ssa.Send, *ssa.RunDefers, *ssa.Phi:
 				return nil
@@ -322,6 +326,94 @@ func (w *World) canonForwarded(c *ssa.Call, idx int, d int) (string, bool) {
 		return ss[0], true
 	}
 	return "phi(" + strings.Join(ss, "|") + ")", true
+}
+
+// zValue: a normal form for the VALUE of a 256-bit expression. The holiman/uint256
+// API is three-address (`z.Mul(x, y)` stores x*y into z and returns z), so the same
+// product can be written into a fresh object, into one of its operands, or through
+// a helper; the normal form names the operation and its operand values only.
+// Operands that are objects mutated elsewhere are not looked through.
+func (w *World) zValue(v ssa.Value) string {
+	return w.zval(v, 0)
+}
+
+func isU256Fn(f *ssa.Function) bool {
+	return f != nil && f.Pkg != nil && f.Pkg.Pkg.Path() == "github.com/holiman/uint256"
+}
+
+// mutatedElsewhere: the 256-bit object v is the receiver of a mutating call other than `except`.
+func mutatedElsewhere(v ssa.Value, except ssa.Instruction) bool {
+	if v.Referrers() == nil {
+		return false
+	}
+	for _, ref := range *v.Referrers() {
+		c, ok := ref.(ssa.CallInstruction)
+		if !ok || ssa.Instruction(c) == except {
+			continue
+		}
+		f := c.Common().StaticCallee()
+		if !isU256Fn(f) || len(c.Common().Args) == 0 || c.Common().Args[0] != v {
+			continue
+		}
+		switch f.Name() {
+		case "Add", "Sub", "Mul", "Div", "Mod", "Set", "SetUint64", "SetBytes", "SetFromBig", "Clear", "DivMod", "MulMod", "AddMod", "Neg", "Lsh", "Rsh", "Exp", "SetOne", "SetFromDecimal":
+			return true
+		}
+	}
+	return false
+}
+
+func (w *World) zval(v ssa.Value, d int) string {
+	if d > 6 {
+		return w.Canon(v)
+	}
+	v = stripConv(v)
+	c, ok := v.(*ssa.Call)
+	if !ok {
+		return w.Canon(v)
+	}
+	f := c.Common().StaticCallee()
+	args := c.Common().Args
+	if isU256Fn(f) {
+		operand := func(x ssa.Value) string {
+			if xc, isCall := stripConv(x).(*ssa.Call); isCall && mutatedElsewhere(xc, c) {
+				return w.Canon(x)
+			}
+			if _, isAlloc := stripConv(x).(*ssa.Alloc); isAlloc && mutatedElsewhere(stripConv(x), c) {
+				return w.Canon(x)
+			}
+			return w.zval(x, d+1)
+		}
+		switch {
+		case f.Name() == "NewInt" && len(args) == 1:
+			return "u(" + w.Canon(args[0]) + ")"
+		case (f.Name() == "Mul" || f.Name() == "Add") && len(args) == 3:
+			a, b := operand(args[1]), operand(args[2])
+			if b < a {
+				a, b = b, a
+			}
+			return "z" + strings.ToLower(f.Name()) + "(" + a + "|" + b + ")"
+		case (f.Name() == "Sub" || f.Name() == "Div" || f.Name() == "Mod") && len(args) == 3:
+			return "z" + strings.ToLower(f.Name()) + "(" + operand(args[1]) + "|" + operand(args[2]) + ")"
+		case f.Name() == "Set" && len(args) == 2:
+			return operand(args[1])
+		case f.Name() == "Clone" && len(args) == 1:
+			return operand(args[0])
+		}
+		return w.Canon(v)
+	}
+	// a simple module helper: the value it returns, with its parameters bound
+	if res := w.simpleHelper(f); res != nil && len(f.Params) == len(args) && len(w.inlineEnv) < 3 {
+		env := map[*ssa.Parameter]string{}
+		for i, p := range f.Params {
+			env[p] = w.Canon(args[i])
+		}
+		w.inlineEnv = append(w.inlineEnv, env)
+		out := w.zval(res, d+1)
+		w.inlineEnv = w.inlineEnv[:len(w.inlineEnv)-1]
+		return out
+	}
+	return w.Canon(v)
 }
 
 // CanonI renders v with calls of simple pure module helpers replaced by the
